@@ -128,11 +128,31 @@ def writeError (tx : Bytes) (e : ErrClass) : Bytes :=
 
 def peerBytes (p : Peer) : Bytes := p.ip ++ be16 (p.port % 2^16)
 
+/-- the address bytes of a peer entry: the 4-byte form in the IPv4 list (`To4`), the 16-byte form in
+the IPv6 list (`To16`) — whatever form the response value holds the address in (D31); an address
+that has no such form is written as it is -/
+def entryIP (v6 : Bool) (ip : Bytes) : Bytes :=
+  if v6 then (if ip.length = 4 then List.replicate 10 0 ++ [255, 255] ++ ip else ip)
+  else match Sanitize.to4 ip with
+    | some ip4 => ip4
+    | none => ip
+
+/-- the largest payload of a UDP datagram -/
+def maxPayload : Nat := 65507
+
+/-- how many peer entries fit behind the 20-byte head of an announce response (D32) -/
+def maxEntries (v6 : Bool) : Nat := (maxPayload - 20) / (if v6 then 18 else 6)
+
+/-- the peers an announce response carries on the wire: those of the requested list, in order, in
+their family's address form, as many as one datagram holds -/
+def wirePeers (r : AnnResp) (v6Peers : Bool) : List Peer :=
+  ((if v6Peers then r.v6peers else r.v4peers).take (maxEntries v6Peers)).map fun p => { p with ip := entryIP v6Peers p.ip }
+
 /-- `WriteAnnounce(w, txID, resp, v6Action, v6Peers)` -/
 def writeAnnounce (tx : Bytes) (r : AnnResp) (v6Action v6Peers : Bool) : Bytes :=
   header (if v6Action then 4 else 1) tx ++
   be32 ((Int.tdiv r.interval 1000000000) % 2^32).toNat ++ be32 (r.incomplete % 2^32) ++ be32 (r.complete % 2^32) ++
-  ((if v6Peers then r.v6peers else r.v4peers).flatMap peerBytes)
+  ((wirePeers r v6Peers).flatMap peerBytes)
 
 def scrapeBytes (s : Scrape) : Bytes :=
   be32 (s.complete % 2^32) ++ be32 (s.snatches % 2^32) ++ be32 (s.incomplete % 2^32)
